@@ -65,36 +65,48 @@ Theorem C16_dynamic_canonical : forall c hidx ops1 ops2,
 Proof. exact dynamic_canonical. Qed.
 Print Assumptions C16_dynamic_canonical.
 
-(** The four defects.  Each flag switched on (alone, or for the units together with the
+(** Persisting the directory and re-opening it from its root node (AReload; the loaded shard tree
+    is the stored one by Props_C15.C15_reload) at ANY point of ANY history leaves the root
+    unchanged; C16_history_meets_spec, C16_sharded_iff and C16_dynamic_canonical above quantify
+    over histories that contain such reloads anywhere. *)
+Theorem C16_reload_canonical : forall c hidx ops,
+  (forall a b, List.length (hidx a) = List.length (hidx b)) -> (forall a, hidx a <> []) -> rule c [] = false ->
+  ops_ok hidx [] ops (snd (run16 fl_spec c hidx (init16 c) ops)) ->
+  repr_of c (reload16 fl_spec c (fst (run16 fl_spec c hidx (init16 c) ops))) =
+  repr_of c (fst (run16 fl_spec c hidx (init16 c) ops)).
+Proof. exact reload_canonical. Qed.
+Print Assumptions C16_reload_canonical.
+
+(** The defects.  Each flag switched on (alone, or for the units together with the
     gate they live in) makes the model violate the specification on a concrete history
     which the flag-off model handles correctly. *)
 Theorem C16_prefix_refuted :
-  model_meets (mkflags16 true false false false false) (cfgL 229) whidx w1_ops = false /\
+  model_meets (mkflags16 true false false false false false) (cfgL 229) whidx w1_ops = false /\
   model_meets fl_spec (cfgL 229) whidx w1_ops = true.
 Proof. exact prefix_refuted. Qed.
 Print Assumptions C16_prefix_refuted.
 
 Theorem C16_thresh_refuted :
-  model_meets (mkflags16 false true false false false) (cfgL 112) whidx w2_ops = false /\
+  model_meets (mkflags16 false true false false false false) (cfgL 112) whidx w2_ops = false /\
   model_meets fl_spec (cfgL 112) whidx w2_ops = true.
 Proof. exact thresh_refuted. Qed.
 Print Assumptions C16_thresh_refuted.
 
 Theorem C16_gate_refuted :
-  model_meets (mkflags16 false false true false false) (cfgL 100) whidx w3_ops = false /\
+  model_meets (mkflags16 false false true false false false) (cfgL 100) whidx w3_ops = false /\
   model_meets fl_spec (cfgL 100) whidx w3_ops = true.
 Proof. exact gate_refuted. Qed.
 Print Assumptions C16_gate_refuted.
 
 Theorem C16_units_refuted :
-  model_meets (mkflags16 false false true true false) (cfgB 196) whidx w4_ops = false /\
-  model_meets (mkflags16 false false true false false) (cfgB 196) whidx w4_ops = true /\
+  model_meets (mkflags16 false false true true false false) (cfgB 196) whidx w4_ops = false /\
+  model_meets (mkflags16 false false true false false false) (cfgB 196) whidx w4_ops = true /\
   model_meets fl_spec (cfgB 196) whidx w4_ops = true.
 Proof. exact units_refuted. Qed.
 Print Assumptions C16_units_refuted.
 
 Theorem C16_addname_refuted :
-  model_meets (mkflags16 false false false false true) (cfgL 120) whidx w5_ops = false /\
+  model_meets (mkflags16 false false false false true false) (cfgL 120) whidx w5_ops = false /\
   model_meets fl_spec (cfgL 120) whidx w5_ops = true.
 Proof. exact addname_refuted. Qed.
 Print Assumptions C16_addname_refuted.
